@@ -929,6 +929,19 @@ ASMJIT_API Error CodeHolder::bind_label(const Label& label, uint32_t to_section_
   Section* section = _sections[to_section_id];
   CodeBuffer& buf = section->buffer();
 
+  // Check the displacements of all fixups that would be patched first, so a refused bind leaves the label unbound.
+  for (Fixup* fixup = le._get_fixups(); fixup; fixup = fixup->next) {
+    if (fixup->label_or_reloc_id == Globals::kInvalidId && fixup->section_id == to_section_id) {
+      uint8_t scratch[16] {};
+      int64_t displacement = int64_t(to_offset - uint64_t(fixup->offset) + uint64_t(int64_t(fixup->rel)));
+
+      memcpy(scratch, buf._data + fixup->offset, Support::min<size_t>(fixup->format.region_size(), sizeof(scratch)));
+      if (!CodeWriterUtils::write_offset(scratch, displacement, fixup->format)) {
+        return make_error(Error::kInvalidDisplacement);
+      }
+    }
+  }
+
   // Bind the label - this either assigns a section to LabelEntry's `_object_data` or `_section_id` in own `ExtraData`.
   // This is basically how this works - when the ExtraData is shared, we replace it by section as the section header
   // is compatible with ExtraData header, and when the LabelEntry has its own ExtraData, the section identifier must
